@@ -46,6 +46,7 @@ class Execution:
         self.events = []  # op-level history: (tid, 'inv'|'res', op, value, clock)
         self.errors = {}
         self.log = []
+        self.callcount = {}
         self.blocked = [None] * nthreads  # lock a thread waits for (scheduler-aware locks)
         self.deadlock = False
 
@@ -146,6 +147,21 @@ def _line_cb(code, line):
     ex = _EXEC
     if ex is not None:
         ex.point((code.co_name, line))
+
+
+def _call_cb(code, offset):
+    """function-entry granularity with a stride (used when line granularity would give too many points)"""
+    ex = _EXEC
+    if ex is not None:
+        tid = ex.idents.get(threading.get_ident())
+        if tid is not None:
+            n = ex.callcount.get(tid, 0) + 1
+            ex.callcount[tid] = n
+            if n % CALL_STRIDE[0] == 0:
+                ex.point((code.co_name, "call", n))
+
+
+CALL_STRIDE = [1]
 
 
 def _instr_cb(code, offset):
@@ -296,11 +312,12 @@ class Instrument:
         import importlib
 
         EV = impl.ExperimentEvaluator
-        if self.mode in ("line", "instr"):
+        if self.mode in ("line", "instr", "call"):
             mon.use_tool_id(TOOL, "xsched")
-            ev = mon.events.LINE if self.mode == "line" else mon.events.INSTRUCTION
+            ev = {"line": mon.events.LINE, "instr": mon.events.INSTRUCTION, "call": mon.events.PY_START}[self.mode]
             mon.register_callback(TOOL, mon.events.LINE, _line_cb if self.mode == "line" else None)
             mon.register_callback(TOOL, mon.events.INSTRUCTION, _instr_cb if self.mode == "instr" else None)
+            mon.register_callback(TOOL, mon.events.PY_START, _call_cb if self.mode == "call" else None)
             for m in self.modules:
                 mod = importlib.import_module(m)
                 for c in _codes_of_module(mod):
@@ -379,11 +396,12 @@ class Instrument:
                 del cls.__setattr__
         for owner, k, v in self._locks:
             setattr(owner, k, v)
-        if self.mode in ("line", "instr"):
+        if self.mode in ("line", "instr", "call"):
             for c in self.codes:
                 mon.set_local_events(TOOL, c, 0)
             mon.register_callback(TOOL, mon.events.LINE, None)
             mon.register_callback(TOOL, mon.events.INSTRUCTION, None)
+            mon.register_callback(TOOL, mon.events.PY_START, None)
             mon.free_tool_id(TOOL)
 
     def shared_instances(self):
